@@ -47,3 +47,41 @@ package replication
 //@ effect[C23:append-forwards-arguments] every storage.Storage($s).AppendObject(_, $b2, $k2, _, $ci2, $o2) if $s != rs.Next
 //@     needs before rs.Next.AppendObject(_, $b, $k, _, $ci, $o) -> (_, $err)
 //@     where $err == nil && $b2 == $b && $k2 == $k && $ci2 == $ci
+
+// Multipart uploads: creating, completing and aborting an upload the primary accepted is repeated on every secondary
+// for the same bucket and key (the upload id is translated through the id mapping).
+//@ methods rs *replicationStorage of storage.Storage in CreateMultipartUpload CompleteMultipartUpload AbortMultipartUpload UploadPartCopy
+//@ mode effects
+//@ requires len(rs.secondaryStorages) > 0 && forall j :: 0 <= j && j < len(rs.secondaryStorages) ==> rs.secondaryStorages[j] != rs.Next
+//@ effect[C23:multipart-step-forwarded] every rs.Next.$M(_, storage.BucketName($b), storage.ObjectKey($k), __) -> (__, $err) if $err == nil
+//@     needs after storage.Storage($s).$M2(_, storage.BucketName($b2), storage.ObjectKey($k2), __)
+//@     where $M2 == $M && $s != rs.Next && $b2 == $b && $k2 == $k
+
+// Bodies: every storage - the primary and each secondary - reads the one spooled copy of the caller's body, and that
+// copy is rewound to its start before each secondary reads it.
+//@ func (*replicationStorage).PutObject
+//@ mode effects
+//@ effect[C23:put-body-is-the-spooled-copy] every storage.Storage($s).PutObject(_, _, _, _, $rd, _, _)
+//@     needs before ioutils.NewSmartCachedReadSeekCloser($r0, _) -> ($sp, _)
+//@     where $r0 == reader && $rd == io.Reader($sp)
+//@ effect[C23:put-body-rewound-for-each-secondary] every storage.Storage($s).PutObject(__) if $s != rs.Next
+//@     needs before _.Seek(int64($off), int($wh)) where $off == 0 && $wh == io.SeekStart
+
+//@ func (*replicationStorage).AppendObject
+//@ mode effects
+//@ effect[C23:append-body-is-the-spooled-copy] every storage.Storage($s).AppendObject(_, _, _, $rd, _, _)
+//@     needs before ioutils.NewSmartCachedReadSeekCloser($r0, _) -> ($sp, _)
+//@     where $r0 == reader && $rd == io.Reader($sp)
+//@ effect[C23:append-body-rewound-for-each-secondary] every storage.Storage($s).AppendObject(__) if $s != rs.Next
+//@     needs before _.Seek(int64($off), int($wh)) where $off == 0 && $wh == io.SeekStart
+
+//@ func (*replicationStorage).UploadPart
+//@ mode effects
+//@ effect[C23:part-body-is-the-spooled-copy] every storage.Storage($s).UploadPart(_, _, _, _, _, $rd, _)
+//@     needs before ioutils.NewSmartCachedReadSeekCloser($r0, _) -> ($sp, _)
+//@     where $r0 == reader && $rd == io.Reader($sp)
+//@ effect[C23:part-body-rewound-for-each-secondary] every storage.Storage($s).UploadPart(__) if $s != rs.Next
+//@     needs before _.Seek(int64($off), int($wh)) where $off == 0 && $wh == io.SeekStart
+//@ effect[C23:part-forwarded-to-the-same-upload] every storage.Storage($s).UploadPart(_, $b2, $k2, _, $n2, _, $ci2) if $s != rs.Next
+//@     needs before rs.Next.UploadPart(_, $b, $k, _, $n, _, $ci) -> (_, $err)
+//@     where $err == nil && $b2 == $b && $k2 == $k && $n2 == $n && $ci2 == $ci
